@@ -35,6 +35,32 @@ FIXTURES = [
     ("C12", "C12-B-F13-regress"),               # B15: assumed matches are withdrawn
     ("C13", "C13-B-path-left-behind-on-failure"),  # B14: bookkeeping stacks are balanced
     ("C13", "C13-B-second-search-pinned-to-base"),  # D1: no call pinned to the base class
+    # rules of rounds 8 and 9 whose count on a healthy tree is zero: an independently written change (kept under /verif/seeded)
+    # that must make exactly that rule fire
+    ("C11", "seed:C11-r8-4", "Y12"),   # a class tested after its base class
+    ("C11", "seed:C11-r9-1", "Y13"),   # closures made in a loop
+    ("C17", "seed:C17-r9-2", "Y14"),   # identity of values
+    ("C18", "seed:C18-r9-2", "Y15"),   # one mutable object repeated
+    ("C08", "seed:C08-r9-1", "Y16"),   # __exit__ swallowing the exception
+    ("C04", "seed:C04-r9-3", "Y17"),   # backing attribute read from outside
+    ("C12", "seed:C12-r9-3", "Y19"),   # negated computed slice bound
+    ("C13", "seed:C13-r9-2", "Y20"),   # a tuple taken for a truth value
+    ("C06", "seed:C06-r8-1", "Y8"),    # Optional[int] tested for truth
+    ("C05", "seed:C05-r8-2", "Y7"),    # result memo with an incomplete key
+    ("C17", "seed:C17-r8-4", "R9"),    # back-reference left out by a stale name
+    ("C18", "seed:C18-r8-4", "G10"),   # loader folds again
+    ("C20", "seed:C20-r8-1", "G11"),   # a second writer of the label tables
+    ("C09", "seed:C09-r8-1", "V13"),   # dictionaries completed on the way in
+    ("C20", "seed:C20-r8-2", "V14"),   # a cheaper test before the series
+    ("C09", "seed:C09-r9-2", "V15"),   # the summing map for a union-type constructor
+    ("C14", "seed:C14-r8-3", "W5"),    # a key that is not kept
+    ("C12", "seed:C12-r8-4", "D4"),    # indexed maps bypassing the derived forms
+    ("C13", "seed:C13-r8-1", "B17"),   # representative stored before the expansion
+    ("C13", "seed:C13-r8-3", "B18"),   # backtracking goes on after a complete matching
+    ("C12", "seed:C12-r9-2", "B19"),   # alternative outside the kind test
+    ("C11", "seed:C11-r8-1", "E15"),   # rule filed under another rule's key
+    ("C04", "seed:C04-r8-1", "J7"),    # argument under another parameter
+    ("C19", "seed:C19-r8-4", "X6"),    # producer / consumer exception
 ]
 
 
@@ -42,11 +68,18 @@ def run_all() -> int:
     from concurrent.futures import ProcessPoolExecutor
 
     jobs = []
-    for pid, vid in FIXTURES:
-        cat = {v["id"]: v for v in mutants.catalogue(pid)}
+    cats = {}
+    for fx in FIXTURES:
+        pid, vid = fx[0], fx[1]
+        if pid not in cats:
+            cats[pid] = {v["id"]: v for v in mutants.catalogue(pid)}
+        cat = cats[pid]
         if vid not in cat:
             raise RuntimeError(f"fixture {vid} missing from the catalogue of {pid}")
-        jobs.append((pid, cat[vid]))
+        v = dict(cat[vid])
+        if len(fx) > 2:
+            v["rule"] = fx[2]
+        jobs.append((pid, v))
     with ProcessPoolExecutor(max_workers=min(16, len(jobs))) as ex:
         results = list(ex.map(mutants._run_one, jobs))
     n = 0
